@@ -454,6 +454,9 @@ func (s *Sched) Run(cond func() bool, maxSteps int, horizon time.Duration) Statu
 		s.wait()
 		if s.Invariant != nil {
 			s.Invariant()
+			// the hook may have woken a blocked task (a cancelled context, a closed connection): let it reach its
+			// next yield point before the enabled set is computed, or the set would depend on real time
+			s.wait()
 		}
 		if cond != nil && cond() {
 			return CondMet
@@ -491,13 +494,20 @@ func (s *Sched) Run(cond func() bool, maxSteps int, horizon time.Duration) Statu
 		}
 		if len(en) == 0 {
 			// nothing enabled: let simulated time advance to the next timer
+			drained := false
 			for {
 				select {
 				case <-s.arrived:
+					drained = true
 					continue
 				default:
 				}
 				break
+			}
+			if drained {
+				// a task may have parked after the enabled set was computed: look again before letting time pass
+				// (an arrival swallowed here used to be a lost wake-up until the next timer fired)
+				continue
 			}
 			tm := time.NewTimer(horizon)
 			select {
